@@ -657,7 +657,11 @@ impl Parser {
             | TokType::IPv4Literal => Ok(self.push_literal(tok)?),
             TokType::RParen => {
                 let st = self.pop();
-                let _ = self.pop();
+                let name: Option<String> = self.pop().into();
+                if name.is_some() {
+                    /* `name:` without a value */
+                    return Err(ParseError);
+                }
                 self.push(st);
                 Ok(Action::Discard(State::ReduceCall))
             }
